@@ -936,7 +936,10 @@ def boundary(model, rng, kind=None):
             if l["contours"] and len(l["contours"][0]) >= 3:
                 c = l["contours"][0]
                 c[0][0], c[1][0] = lo, hi
-        b.update(glyph=g["name"], value=hi - lo, beyond=hi - lo > 32767, accept="must" if hi - lo <= 32767 else "either")
+        # 'must be accepted' only when no two points of the glyph (whatever start point, direction and contour order the
+        # compiler picks) are further apart than a 16-bit delta, in any master
+        spread = max((max(p[0] for c in l["contours"] for p in c) - min(p[0] for c in l["contours"] for p in c)) for l in all_layers(g) if l["contours"])
+        b.update(glyph=g["name"], value=hi - lo, beyond=hi - lo > 32767, accept="must" if spread <= 32767 - 2 else "either")
     elif kind == "comp-offset" and comps:
         g = rng.choice(comps)
         v = rng.choice(I16)
@@ -987,6 +990,38 @@ def boundary(model, rng, kind=None):
                 l["contours"][0][0][0] = lo if first else hi
             first = False
         b.update(glyph=g["name"], value=hi - lo, beyond=hi - lo > 32767)
+    elif kind == "corner-delta" and simple and len(model["axes"]) >= 2:
+        # every master within 16 bits of the default, but the corner master's own delta (corner - default - the two on-axis
+        # deltas) is not: default 0, on-axis masters +v, corner -v  ->  corner delta -3v
+        dflt = list(full[0]["design_loc"].values())
+        locs = {m["name"]: list(m["design_loc"].values()) for m in full}
+        diff = lambda l: [k for k in range(len(dflt)) if l[k] != dflt[k]]  # noqa
+        triple = None
+        for ab, lab in locs.items():
+            if len(diff(lab)) != 2:
+                continue
+            i, j = diff(lab)
+            a = next((n for n, l in locs.items() if diff(l) == [i] and l[i] == lab[i]), None)
+            bb = next((n for n, l in locs.items() if diff(l) == [j] and l[j] == lab[j]), None)
+            if a and bb:
+                triple = (a, bb, ab)
+                break
+        cands = [g for g in simple if triple and all(n in g["layers"] and g["layers"][n]["contours"] for n in triple + (full[0]["name"],))]
+        if cands:
+            g = rng.choice(cands)
+            v = rng.choice([5000, 10000, 10922, 10923, 12000, 20000, 30000])
+            for mname, l in g["layers"].items():
+                if not l["contours"]:
+                    continue
+                x0 = l["contours"][0][0][0] if mname == full[0]["name"] else g["layers"][full[0]["name"]]["contours"][0][0][0]
+                if mname in triple[:2]:
+                    l["contours"][0][0][0] = x0 + v
+                elif mname == triple[2]:
+                    l["contours"][0][0][0] = x0 - v
+            b.update(glyph=g["name"], value=-3 * v, beyond=3 * v > 32768, masters=list(triple),
+                     accept="reject" if 3 * v > 32768 else ("must" if 3 * v <= 32760 else "either"))
+        else:
+            b["kind"] = "none"
     elif kind == "cubic-arch" and simple:
         # every source point fits 16 bits, but the quadratic approximation of a wide bulging cubic needs an off-curve point
         # about 1.5x further out than the handles
